@@ -57,60 +57,61 @@ mod set_reach__ser;
 mod set_reach__src0;
 mod set_reach__srcpar;
 mod cp__pari;
-mod lex_dual_lat__pari;
-mod lat_two_keys__par;
-mod lat_pre_join__par;
-mod lat_val_bound__par;
-mod lat_input__mrt;
-mod lat_input__init;
-mod count_paths__run;
-mod count_paths__redecl;
-mod neg_basic__topar;
-mod neg_basic__srcred;
-mod neg_basic__permpar;
-mod agg_depth__pari;
-mod agg_user__ser;
-mod agg_bound_mix__ser;
-mod agg_empty_rel__ser;
-mod agg_const_args__exp;
-mod disj__to;
-mod disj__srcto;
-mod disj__ren;
-mod disj_nested__exppar;
-mod rep_expr__pari;
-mod neg_in_disj__ser;
-mod mac_basic__to;
-mod mac_basic__srcto;
-mod mac_capture__ser;
-mod mac_nested__exp;
-mod mac_local_names__par;
-mod mac_block__exppar;
-mod stress_lat__pari;
-mod rnd_core_01__par;
-mod rnd_core_04__ser;
-mod rnd_core_06__pari;
-mod rnd_core_09__par;
-mod rnd_core_12__ser;
-mod rnd_core_14__pari;
-mod rnd_core_17__par;
-mod rnd_core_20__ser;
-mod rnd_core_22__pari;
-mod rnd_core_25__par;
-mod rnd_core_28__ser;
-mod rnd_core_30__pari;
-mod rnd_agg_03__par;
-mod rnd_agg_06__ser;
-mod rnd_agg_08__pari;
-mod rnd_agg_11__par;
-mod rnd_agg_14__ser;
-mod rnd_prec_01__pari;
-mod rnd_prec_03__ser;
-mod rnd_prec_04__to;
-mod rnd_prec_06__par;
-mod rnd_prec_07__topar;
-mod rnd_prea_01__pari;
-mod rnd_prea_04__par;
-mod rnd_prea_07__ser;
+mod lat_tree__pari;
+mod lex_lat__pari;
+mod lat_multi_improve__par;
+mod lat_pre_join__topar;
+mod lat_input__par;
+mod lat_input__src1;
+mod count_paths__ser;
+mod count_paths__src0;
+mod count_paths__srcpar;
+mod neg_basic__gen;
+mod neg_basic__runpar;
+mod agg_minmaxsum__ser;
+mod agg_lattice__ser;
+mod neg_rec_after__ser;
+mod agg_empty__ser;
+mod agg_empty_rel__to;
+mod agg_pre_join__par;
+mod disj__mrt;
+mod disj__init;
+mod disj__exppar;
+mod pat_args__pari;
+mod multi_head_disj__ser;
+mod neg_in_disj__exp;
+mod mac_basic__mrt;
+mod mac_basic__init;
+mod mac_capture__exp;
+mod mac_gensym_disj__par;
+mod mac_local_names__exppar;
+mod mac_disj__pari;
+mod stress_set__pari;
+mod rnd_core_02__par;
+mod rnd_core_05__ser;
+mod rnd_core_07__pari;
+mod rnd_core_10__par;
+mod rnd_core_13__ser;
+mod rnd_core_15__pari;
+mod rnd_core_18__par;
+mod rnd_core_21__ser;
+mod rnd_core_23__pari;
+mod rnd_core_26__par;
+mod rnd_core_29__ser;
+mod rnd_agg_01__pari;
+mod rnd_agg_04__par;
+mod rnd_agg_07__ser;
+mod rnd_agg_09__pari;
+mod rnd_agg_12__par;
+mod rnd_agg_15__ser;
+mod rnd_prec_02__ser;
+mod rnd_prec_03__to;
+mod rnd_prec_05__par;
+mod rnd_prec_06__topar;
+mod rnd_prec_08__pari;
+mod rnd_prea_02__pari;
+mod rnd_prea_05__par;
+mod rnd_prea_08__ser;
 
 fn lookup(name: &str) -> fn() -> Box<dyn Driven> {
    match name {
@@ -163,60 +164,61 @@ fn lookup(name: &str) -> fn() -> Box<dyn Driven> {
       "set_reach__src0" => set_reach__src0::make,
       "set_reach__srcpar" => set_reach__srcpar::make,
       "cp__pari" => cp__pari::make,
-      "lex_dual_lat__pari" => lex_dual_lat__pari::make,
-      "lat_two_keys__par" => lat_two_keys__par::make,
-      "lat_pre_join__par" => lat_pre_join__par::make,
-      "lat_val_bound__par" => lat_val_bound__par::make,
-      "lat_input__mrt" => lat_input__mrt::make,
-      "lat_input__init" => lat_input__init::make,
-      "count_paths__run" => count_paths__run::make,
-      "count_paths__redecl" => count_paths__redecl::make,
-      "neg_basic__topar" => neg_basic__topar::make,
-      "neg_basic__srcred" => neg_basic__srcred::make,
-      "neg_basic__permpar" => neg_basic__permpar::make,
-      "agg_depth__pari" => agg_depth__pari::make,
-      "agg_user__ser" => agg_user__ser::make,
-      "agg_bound_mix__ser" => agg_bound_mix__ser::make,
-      "agg_empty_rel__ser" => agg_empty_rel__ser::make,
-      "agg_const_args__exp" => agg_const_args__exp::make,
-      "disj__to" => disj__to::make,
-      "disj__srcto" => disj__srcto::make,
-      "disj__ren" => disj__ren::make,
-      "disj_nested__exppar" => disj_nested__exppar::make,
-      "rep_expr__pari" => rep_expr__pari::make,
-      "neg_in_disj__ser" => neg_in_disj__ser::make,
-      "mac_basic__to" => mac_basic__to::make,
-      "mac_basic__srcto" => mac_basic__srcto::make,
-      "mac_capture__ser" => mac_capture__ser::make,
-      "mac_nested__exp" => mac_nested__exp::make,
-      "mac_local_names__par" => mac_local_names__par::make,
-      "mac_block__exppar" => mac_block__exppar::make,
-      "stress_lat__pari" => stress_lat__pari::make,
-      "rnd_core_01__par" => rnd_core_01__par::make,
-      "rnd_core_04__ser" => rnd_core_04__ser::make,
-      "rnd_core_06__pari" => rnd_core_06__pari::make,
-      "rnd_core_09__par" => rnd_core_09__par::make,
-      "rnd_core_12__ser" => rnd_core_12__ser::make,
-      "rnd_core_14__pari" => rnd_core_14__pari::make,
-      "rnd_core_17__par" => rnd_core_17__par::make,
-      "rnd_core_20__ser" => rnd_core_20__ser::make,
-      "rnd_core_22__pari" => rnd_core_22__pari::make,
-      "rnd_core_25__par" => rnd_core_25__par::make,
-      "rnd_core_28__ser" => rnd_core_28__ser::make,
-      "rnd_core_30__pari" => rnd_core_30__pari::make,
-      "rnd_agg_03__par" => rnd_agg_03__par::make,
-      "rnd_agg_06__ser" => rnd_agg_06__ser::make,
-      "rnd_agg_08__pari" => rnd_agg_08__pari::make,
-      "rnd_agg_11__par" => rnd_agg_11__par::make,
-      "rnd_agg_14__ser" => rnd_agg_14__ser::make,
-      "rnd_prec_01__pari" => rnd_prec_01__pari::make,
-      "rnd_prec_03__ser" => rnd_prec_03__ser::make,
-      "rnd_prec_04__to" => rnd_prec_04__to::make,
-      "rnd_prec_06__par" => rnd_prec_06__par::make,
-      "rnd_prec_07__topar" => rnd_prec_07__topar::make,
-      "rnd_prea_01__pari" => rnd_prea_01__pari::make,
-      "rnd_prea_04__par" => rnd_prea_04__par::make,
-      "rnd_prea_07__ser" => rnd_prea_07__ser::make,
+      "lat_tree__pari" => lat_tree__pari::make,
+      "lex_lat__pari" => lex_lat__pari::make,
+      "lat_multi_improve__par" => lat_multi_improve__par::make,
+      "lat_pre_join__topar" => lat_pre_join__topar::make,
+      "lat_input__par" => lat_input__par::make,
+      "lat_input__src1" => lat_input__src1::make,
+      "count_paths__ser" => count_paths__ser::make,
+      "count_paths__src0" => count_paths__src0::make,
+      "count_paths__srcpar" => count_paths__srcpar::make,
+      "neg_basic__gen" => neg_basic__gen::make,
+      "neg_basic__runpar" => neg_basic__runpar::make,
+      "agg_minmaxsum__ser" => agg_minmaxsum__ser::make,
+      "agg_lattice__ser" => agg_lattice__ser::make,
+      "neg_rec_after__ser" => neg_rec_after__ser::make,
+      "agg_empty__ser" => agg_empty__ser::make,
+      "agg_empty_rel__to" => agg_empty_rel__to::make,
+      "agg_pre_join__par" => agg_pre_join__par::make,
+      "disj__mrt" => disj__mrt::make,
+      "disj__init" => disj__init::make,
+      "disj__exppar" => disj__exppar::make,
+      "pat_args__pari" => pat_args__pari::make,
+      "multi_head_disj__ser" => multi_head_disj__ser::make,
+      "neg_in_disj__exp" => neg_in_disj__exp::make,
+      "mac_basic__mrt" => mac_basic__mrt::make,
+      "mac_basic__init" => mac_basic__init::make,
+      "mac_capture__exp" => mac_capture__exp::make,
+      "mac_gensym_disj__par" => mac_gensym_disj__par::make,
+      "mac_local_names__exppar" => mac_local_names__exppar::make,
+      "mac_disj__pari" => mac_disj__pari::make,
+      "stress_set__pari" => stress_set__pari::make,
+      "rnd_core_02__par" => rnd_core_02__par::make,
+      "rnd_core_05__ser" => rnd_core_05__ser::make,
+      "rnd_core_07__pari" => rnd_core_07__pari::make,
+      "rnd_core_10__par" => rnd_core_10__par::make,
+      "rnd_core_13__ser" => rnd_core_13__ser::make,
+      "rnd_core_15__pari" => rnd_core_15__pari::make,
+      "rnd_core_18__par" => rnd_core_18__par::make,
+      "rnd_core_21__ser" => rnd_core_21__ser::make,
+      "rnd_core_23__pari" => rnd_core_23__pari::make,
+      "rnd_core_26__par" => rnd_core_26__par::make,
+      "rnd_core_29__ser" => rnd_core_29__ser::make,
+      "rnd_agg_01__pari" => rnd_agg_01__pari::make,
+      "rnd_agg_04__par" => rnd_agg_04__par::make,
+      "rnd_agg_07__ser" => rnd_agg_07__ser::make,
+      "rnd_agg_09__pari" => rnd_agg_09__pari::make,
+      "rnd_agg_12__par" => rnd_agg_12__par::make,
+      "rnd_agg_15__ser" => rnd_agg_15__ser::make,
+      "rnd_prec_02__ser" => rnd_prec_02__ser::make,
+      "rnd_prec_03__to" => rnd_prec_03__to::make,
+      "rnd_prec_05__par" => rnd_prec_05__par::make,
+      "rnd_prec_06__topar" => rnd_prec_06__topar::make,
+      "rnd_prec_08__pari" => rnd_prec_08__pari::make,
+      "rnd_prea_02__pari" => rnd_prea_02__pari::make,
+      "rnd_prea_05__par" => rnd_prea_05__par::make,
+      "rnd_prea_08__ser" => rnd_prea_08__ser::make,
       _ => panic!("no such program variant in this shard: {}", name),
    }
 }
